@@ -191,7 +191,17 @@ def _mx(v):
     return (1900 if v[16].isdigit() else 2000) + _yy(v, 4)
 
 
+def _czrc(v):
+    # birth numbers: 9 digits were issued until the end of 1953 (yy 00..53 -> 19yy, yy 80..99 -> 18yy), 10 digits since
+    # 1954 (yy 54..99 -> 19yy, 00..53 -> 20yy)
+    yy = int(v[:2])
+    if len(v) == 9:
+        return 1900 + yy if yy <= 53 else (1800 + yy if yy >= 80 else None)
+    return 1900 + yy if yy >= 54 else 2000 + yy
+
+
 YEAR_RULES = {
+    'stdnum.cz.rc': _czrc, 'stdnum.sk.rc': _czrc,
     'stdnum.dk.cpr': _dk, 'stdnum.ee.ik': _ee, 'stdnum.lt.asmens': _ee, 'stdnum.ro.cnp': _ro, 'stdnum.si.emso': _si,
     'stdnum.bg.egn': _bg, 'stdnum.pl.pesel': _pl, 'stdnum.lv.pvn': _lv, 'stdnum.fi.hetu': _fi, 'stdnum.kr.rrn': _kr,
     'stdnum.cu.ni': _cu, 'stdnum.mx.curp': _mx, 'stdnum.cn.ric': lambda v: int(v[6:10]),
